@@ -162,6 +162,21 @@ func genC02Pair(t *rapid.T, col *collector, k1 bool) (c02Case, bool) {
 		if rapid.Bool().Draw(t, "swap") {
 			va, vb = vb, va
 		}
+		if !k1 && rapid.IntRange(0, 7).Draw(t, "crlf") == 0 {
+			// the received text is the stored one with CRLF line ends (or one CR before a newline / at the end):
+			// a different formatted value. (Storing such a value is the documented limitation; receiving it is not.)
+			switch rapid.IntRange(0, 2).Draw(t, "crlfkind") {
+			case 0:
+				vb = strings.ReplaceAll(va, "\n", "\r\n")
+			case 1:
+				vb = va + "\r"
+			default:
+				vb = va + "\r\n"
+			}
+			if api == "ssnap" && rapid.Bool().Draw(t, "crlfswap") {
+				va, vb = vb, va
+			}
+		}
 		c.Stored = Call{API: api, Vals: []Val{strVal(va)}}
 		c.Recv = Call{API: api, Vals: []Val{strVal(vb)}}
 		a, b := c.Stored.snapText(), c.Recv.snapText()
@@ -170,7 +185,7 @@ func genC02Pair(t *rapid.T, col *collector, k1 bool) (c02Case, bool) {
 			col.exclude("pair formats identically")
 			return c, false
 		}
-		if api == "snap" && (hasTrailingCR(a) || hasTrailingCR(b)) {
+		if api == "snap" && hasTrailingCR(a) {
 			col.exclude("cr_at_end_of_line(documented limitation)")
 			return c, false
 		}
